@@ -3,7 +3,7 @@ import random
 from fractions import Fraction as Fr
 
 from .. import families as fam
-from ..dsl import Cfg, leaves
+from ..dsl import Cfg, leaves, Spec, Sym, X, U, Pg, t, nl1
 from ..instance import Inst
 from ..match import Checker
 from ..ref import collocation as ref
@@ -53,6 +53,10 @@ def instances(tier, seed):
                     h = Hsym[n % len(Hsym)]
                 add(fam.with_horizon(s, h), Cfg('DC', N=N, M=M, degree=degree, scheme=scheme, grid=g))
                 n += 1
+    # a vector-valued state whose right-hand side is given as ONE scalar (repeated), next to another state
+    sb = Spec(nx=3, nu=1, xshape=[(2, 1), (1, 1)], ode=[Pg('a') * t, Pg('a') * t, nl1(X(0)) + U(0) * X(1)], params=[Sym('a', value=2)],
+              ode_broadcast={0: Pg('a') * t}, note='scalar right-hand side for a vector state')
+    add(fam.with_horizon(sb, H[1]), Cfg('DC', N=2, M=2, degree=2, scheme='radau', grid=fam.G_UNI))
     nrand = 10 if tier == 'quick' else 400
     for r in range(nrand):
         s = fam.random_dae(rng) if rng.random() < 0.6 else fam.random_ode(rng)
